@@ -370,6 +370,10 @@ class Unit:
                 cur.extra_sig.append(arg)
             elif cmd == 'prefix':
                 cur.prefix.append(arg)
+            elif cmd == 'suffix':
+                cid, t = self._cid(arg, cur.name, 'hint')
+                self.clauses[cid].kind = 'hint'
+                cur.suffix.append((cid, t))
             elif cmd == 'loop':
                 m = re.match(r'(\d+)\s+(\w+)\s*(.*)$', arg, re.S)
                 nl, sub, rest = int(m.group(1)), m.group(2), m.group(3)
@@ -382,6 +386,18 @@ class Unit:
                     l['decreases'] = (cid, t)
                 elif sub == 'prefix':
                     l['prefix'].append(rest)
+                elif sub == 'body_prefix':
+                    l['body_prefix'].append(rest)
+                elif sub == 'iter_name':
+                    l['iter_name'] = rest.strip()
+                elif sub == 'for_continue':
+                    l['for_continue'] = True
+                    t = dict(rule='T13', what='for-loop body with `continue` wrapped in a one-iteration `loop { ..; break; }`, continue -> break', item=cur.name, loop=nl)
+                    rec['transformations'].append(t)
+                    self.transforms.append(t)
+                elif sub in ('body_invariant', 'body_ensures'):
+                    cid, t = self._cid(rest, cur.name, 'loop%d.%s' % (nl, sub))
+                    l[sub].append((cid, t))
                 else:
                     raise Undecided('template: bad loop directive %r' % s)
             elif cmd == 'hint':
@@ -417,7 +433,7 @@ class Unit:
                 raise Undecided('template: unknown sub-directive %r' % s)
         for key in order:
             sp = specs[key]
-            if sp.clause_ids() or sp.ret or sp.prefix or sp.attrs or sp.loops or sp.extra_sig or sp.arm_wraps or sp.tail_wraps:
+            if sp.clause_ids() or sp.ret or sp.prefix or sp.attrs or sp.loops or sp.extra_sig or sp.arm_wraps or sp.tail_wraps or sp.suffix:
                 text = splice_fn(text, sp)
                 ext = any('external_body' in a for a in sp.attrs)
                 if not ext:
